@@ -5,5 +5,5 @@ CONSTANTS
   MaxSteps = 5
   Record = TRUE
   Sample = 1
-INVARIANTS ViewIsJoin Export
+INVARIANTS ViewIsJoin JoinAgrees Export
 CHECK_DEADLOCK FALSE
